@@ -181,13 +181,16 @@ int main(int argc, char **argv)
   else if (mode == "big")
   {
     // messages of 2^29 - 64 + t, 2^29 + t bytes (t in {0, 1, 55, 56, 63}): the bit length crosses 2^32
-    const unsigned long long U = (1ULL << 29) / 64;
-    const unsigned long long unit_counts[] = {U - 1, U, 2 * U};
+    // "big mid": 8 KiB and 2 MiB instead - the messages at which the third and fourth byte of the bit length
+    // become non-zero (cheap enough for the quick tier)
+    const bool mid = argc > 2 && std::string(argv[2]) == "mid";
+    const unsigned long long U = mid ? (1ULL << 13) / 64 : (1ULL << 29) / 64;
+    const unsigned long long unit_counts[] = {U - 1, U, mid ? 256 * U : 2 * U};
     for (int alg = 0; alg < 3; ++alg)
       for (unsigned long long units : unit_counts)
         for (int t : {0, 56})
         {
-          if (units == 2 * U && t == 56)
+          if (units == unit_counts[2] && t == 56)
             continue;
           synth_buffer sb;
           sb.units = units;
